@@ -145,7 +145,39 @@ def write_replay(prop, v, case, seed, digest, tag=""):
     return path
 
 
+def selfcheck():
+    """setup_cmd: nothing to build; verify imports, the known-findings file and a determinism smoke test."""
+    import importlib
+
+    t0 = time.perf_counter()
+    import torch  # noqa: F401
+    import agilerl  # noqa: F401
+
+    print(f"python {sys.version.split()[0]} torch {torch.__version__} agilerl from {os.path.dirname(agilerl.__file__)}")
+    known = load_known()
+    ids = [k["id"] for k in known]
+    assert len(ids) == len(set(ids)), "duplicate ids in known_findings.json"
+    for k in known:
+        assert k["status"] in ("known", "fixed") and k["property"] in REGISTRY or k["status"] == "fixed", k
+    bad = 0
+    for prop in sorted(REGISTRY):
+        eng = load_engine(prop)
+        for i in range(3):
+            rng = kernel.child_rng(kernel.DEFAULT_SEED, prop, i)
+            case = eng.gen(prop, rng, "quick")
+            case["_run"] = {"seed": kernel.DEFAULT_SEED, "index": i}
+            r1 = exec_case(prop, case)
+            r2 = exec_case(prop, json.loads(json.dumps(case)))
+            if "harness_error" in r1 or "harness_error" in r2 or r1["digest"] != r2["digest"]:
+                print(f"SELFCHECK-FAIL {prop} run {i}: {r1.get('harness_error') or r2.get('harness_error') or 'digest differs between two executions'}")
+                bad += 1
+    print(f"selfcheck: {len(REGISTRY)} properties, determinism smoke {'FAILED' if bad else 'ok'}, {time.perf_counter() - t0:.1f}s")
+    return 2 if bad else 0
+
+
 def main(argv=None):
+    if (argv or sys.argv[1:])[:1] == ["--selfcheck"]:
+        return selfcheck()
     ap = argparse.ArgumentParser()
     ap.add_argument("prop")
     ap.add_argument("--tier", default=os.environ.get("VERIF_TIER", "quick"), choices=["quick", "thorough"])
